@@ -344,4 +344,728 @@ theorem groupAnd_S0 : ∀ fuel,
                       | branch ty cs' => have := h.children.1; subst this; simp [Token.ty] at hngrp
                   · exact Or.inr (Or.inr h)
 
+/-! ### `group_tokens` on a token list in which every `(` is followed by a subgoal or another `(` -/
+
+/-- what the tokenizer guarantees (proved below): all tokens are leaves, none carries the type of a branch, the
+    first token and the token after every `(` is a subgoal or a `(` -/
+structure TokOK (ts : List Token) : Prop where
+  leaves : ∀ t ∈ ts, t.isLeaf ∧ t.ty ≠ .group
+  first : ∃ t, ts[0]? = some t ∧ (t.ty = .lparen ∨ isSub t)
+  after : ∀ k t, ts[k]? = some t → t.ty = .lparen → ∃ nx, ts[k + 1]? = some nx ∧ (nx.ty = .lparen ∨ isSub nx)
+
+theorem groupTokens_S0 (ts : List Token) (hts : TokOK ts) : ∀ (fuel index : Nat) (acc : List Token),
+    (∀ x ∈ acc, ¬ x.isLeaf → S0 x) → (∀ x ∈ acc, x.isLeaf → x.ty ≠ .group) →
+    (match acc with
+     | [] => ∃ t, ts[index]? = some t ∧ (t.ty = .lparen ∨ isSub t)
+     | c :: _ => c.isLeaf → isSub c) →
+    groupTokens ts fuel index acc ≠ .panic ∧ ∀ r, groupTokens ts fuel index acc = .ok r → S0 r.1 := by
+  intro fuel
+  induction fuel with
+  | zero => intro index acc _ _ _; exact ⟨by simp [groupTokens], fun r h => by simp [groupTokens] at h⟩
+  | succ fuel ih =>
+    intro index acc h1 h2 h3
+    have close : acc ≠ [] → makeBranchToken .group acc = .ok (.branch .group acc) ∧ S0 (.branch .group acc) := by
+      intro hne
+      refine ⟨mkBranch_ok _ _ (Or.inr (Or.inr rfl)), ?_⟩
+      match acc, hne, h1, h2, h3 with
+      | c :: rest, _, h1, h2, h3 => exact .mk h3 h1 h2
+    simp only [groupTokens]
+    split
+    · -- the tokens are used up
+      rename_i hnone
+      have hne : acc ≠ [] := by
+        intro h0; subst h0
+        obtain ⟨t, ht, _⟩ := h3
+        rw [hnone] at ht; cases ht
+      obtain ⟨e, hs⟩ := close hne
+      rw [e]
+      exact ⟨by simp [Res.bind], fun r h => by simp [Res.bind] at h; subst h; exact hs⟩
+    · rename_i token htok
+      have hleaf := hts.leaves token (List.mem_of_getElem? htok)
+      split
+      · -- `(`: a group of its own
+        rename_i hlp
+        have hlp' : token.ty = .lparen := by simpa using hlp
+        obtain ⟨nx, hnx, hnxty⟩ := hts.after index token htok hlp'
+        obtain ⟨n1, n2⟩ := ih (index + 1) [] (by simp) (by simp) ⟨nx, hnx, hnxty⟩
+        have cont : ∀ r1, groupTokens ts fuel (index + 1) [] = .ok r1 →
+            groupTokens ts fuel (r1.2 + 1 + 1) (acc ++ [r1.1]) ≠ .panic ∧
+            ∀ r, groupTokens ts fuel (r1.2 + 1 + 1) (acc ++ [r1.1]) = .ok r → S0 r.1 := by
+          intro r1 hr1
+          have hs := n2 r1 hr1
+          have hnl : ¬ r1.1.isLeaf := by
+            generalize r1.1 = x at hs
+            cases hs; exact fun h => h
+          apply ih
+          · exact all_snoc h1 (fun _ => hs)
+          · exact all_snoc h2 (fun h => absurd h hnl)
+          · match acc, h3 with
+            | [], _ => exact fun h => absurd h hnl
+            | c :: rest, h3 => exact h3
+        refine ⟨Res.bind_ne_panic n1 (fun r1 hr1 => (cont r1 hr1).1), fun r hr => ?_⟩
+        obtain ⟨r1, hr1, hr⟩ := Res.bind_eq_ok.mp hr
+        exact (cont r1 hr1).2 r hr
+      · split
+        · -- `)`: the group is complete
+          rename_i hnlp hrp
+          have hne : acc ≠ [] := by
+            intro h0; subst h0
+            obtain ⟨t, ht, hty⟩ := h3
+            rw [htok] at ht; cases ht
+            rcases hty with h | h
+            · exact hnlp (by simp [h])
+            · have := isSub_ty h; simp [this] at hrp
+          obtain ⟨e, hs⟩ := close hne
+          rw [e]
+          exact ⟨by simp [Res.bind], fun r h => by simp [Res.bind] at h; subst h; exact hs⟩
+        · -- any other token joins the group
+          rename_i hnlp hnrp
+          apply ih
+          · exact all_snoc h1 (fun h => absurd hleaf.1 h)
+          · exact all_snoc h2 (fun _ => hleaf.2)
+          · match acc, h3 with
+            | [], h3 =>
+              obtain ⟨t, ht, hty⟩ := h3
+              rw [htok] at ht; cases ht
+              rcases hty with h | h
+              · exact absurd (by simp [h]) hnlp
+              · exact fun _ => h
+            | c :: rest, h3 => exact h3
+
+/-! ### the tokenizer produces such a list -/
+
+theorem ws_not_letter (c : Char) (h : isWs c = true) : letterNumberHyphen c = false := by
+  cases hl : letterNumberHyphen c with
+  | false => rfl
+  | true =>
+    exfalso
+    unfold isWs at h
+    unfold letterNumberHyphen at hl
+    simp only [Bool.or_eq_true, Bool.and_eq_true, decide_eq_true_eq, beq_iff_eq] at h hl
+    have e1 : c = '_' → c.toNat = 95 := fun e => by subst e; rfl
+    have e2 : c = '-' → c.toNat = 45 := fun e => by subst e; rfl
+    have a1 : 'a'.toNat = 97 := rfl
+    have a2 : 'z'.toNat = 122 := rfl
+    have a3 : 'A'.toNat = 65 := rfl
+    have a4 : 'Z'.toNat = 90 := rfl
+    have a5 : '0'.toNat = 48 := rfl
+    have a6 : '9'.toNat = 57 := rfl
+    rw [a1, a2, a3, a4, a5, a6] at hl
+    rcases hl with ((((((hl | hl) | hl) | hl) | hl) | hl) | hl) | hl
+    all_goals (first | (have := e1 hl; omega) | (have := e2 hl; omega) | omega)
+
+theorem ws_not_special (c : Char) (h : isWs c = true) : c ≠ '\\' ∧ c ≠ ',' ∧ c ≠ ';' ∧ c ≠ '(' ∧ c ≠ ')' ∧ c ≠ '"' ∧ c ≠ '[' ∧ c ≠ ']' := by
+  refine ⟨?_, ?_, ?_, ?_, ?_, ?_, ?_, ?_⟩ <;> (intro e; subst e; revert h; decide)
+
+/-- the first character that is not white space -/
+def firstNonWs (x : Text) : Option Char := (x.dropWhile isWs).head?
+
+theorem firstNonWs_append (x y : Text) :
+    firstNonWs (x ++ y) = match firstNonWs x with | some d => some d | none => firstNonWs y := by
+  unfold firstNonWs
+  induction x with
+  | nil => simp
+  | cons a x ih =>
+    simp only [List.cons_append, List.dropWhile]
+    cases ha : isWs a with
+    | true => simpa using ih
+    | false => simp
+
+theorem firstNonWs_cons_nonws (c : Char) (y : Text) (h : isWs c = false) : firstNonWs (c :: y) = some c := by
+  simp [firstNonWs, List.dropWhile, h]
+
+theorem firstNonWs_single (c : Char) : firstNonWs [c] = if isWs c then none else some c := by
+  cases h : isWs c <;> simp [firstNonWs, List.dropWhile, h]
+
+theorem dropWhile_snoc_keep (p : Char → Bool) (A : Text) (d : Char) (hd : p d = false) :
+    (A ++ [d]).dropWhile p = A.dropWhile p ++ [d] := by
+  induction A with
+  | nil => simp [List.dropWhile, hd]
+  | cons a A ih =>
+    simp only [List.cons_append, List.dropWhile]
+    cases p a <;> simp [ih]
+
+/-- `trim` keeps the first character that is not white space in front -/
+theorem trim_head (x : Text) (d : Char) (h : firstNonWs x = some d) : ∃ t, trim x = d :: t := by
+  unfold firstNonWs at h
+  unfold trim trimEnd trimStart
+  cases hx : x.dropWhile isWs with
+  | nil => rw [hx] at h; cases h
+  | cons a rest =>
+    rw [hx] at h; simp at h; subst h
+    have hnw : isWs a = false := by
+      have := List.head?_dropWhile_not isWs x
+      rw [hx] at this
+      simpa using this
+    rw [List.reverse_cons, dropWhile_snoc_keep _ _ _ hnw, List.reverse_append]
+    exact ⟨_, rfl⟩
+
+theorem trim_all_ws (x : Text) (h : firstNonWs x = none) : trim x = [] := by
+  unfold firstNonWs at h
+  unfold trim trimEnd trimStart
+  cases hx : x.dropWhile isWs with
+  | nil => rfl
+  | cons a rest => rw [hx] at h; cases h
+
+def badFirst (d : Char) : Prop := d = ',' ∨ d = ';' ∨ d = '(' ∨ d = ')'
+
+/-- a piece of text that does not start (white space aside) with a separator or a parenthesis is a subgoal token -/
+theorem makeLeafToken_sub (x : Text) (h : ∀ d, firstNonWs x = some d → ¬ badFirst d) : isSub (makeLeafToken x) := by
+  unfold makeLeafToken
+  simp only
+  cases hf : firstNonWs x with
+  | none => rw [trim_all_ws x hf]; exact trivial
+  | some d =>
+    obtain ⟨t, ht⟩ := trim_head x d hf
+    have hb := h d hf
+    rw [ht]
+    have n1 : (d :: t == [',']) = false := by
+      cases t with
+      | nil => simp; intro e; exact hb (Or.inl e)
+      | cons _ _ => simp
+    have n2 : (d :: t == [';']) = false := by
+      cases t with
+      | nil => simp; intro e; exact hb (Or.inr (Or.inl e))
+      | cons _ _ => simp
+    have n3 : (d :: t == ['(']) = false := by
+      cases t with
+      | nil => simp; intro e; exact hb (Or.inr (Or.inr (Or.inl e)))
+      | cons _ _ => simp
+    have n4 : (d :: t == [')']) = false := by
+      cases t with
+      | nil => simp; intro e; exact hb (Or.inr (Or.inr (Or.inr e)))
+      | cons _ _ => simp
+    simp only [n1, n2, n3, n4, Bool.false_eq_true, if_false]
+    exact trivial
+
+/-- every token the tokenizer makes is a leaf and carries none of the branch types -/
+theorem makeLeafToken_leaf (x : Text) : (makeLeafToken x).isLeaf ∧ (makeLeafToken x).ty ≠ .group := by
+  unfold makeLeafToken
+  simp only
+  repeat' split
+  all_goals exact ⟨trivial, by simp [Token.ty]⟩
+
+/-- a piece of text that contains a `)` is not the token `(` -/
+theorem makeLeafToken_not_lparen (x : Text) (h : ')' ∈ x) : (makeLeafToken x).ty ≠ .lparen := by
+  have hm : ')' ∈ trim x := mem_trim h (by decide)
+  unfold makeLeafToken
+  simp only
+  repeat' split
+  all_goals first
+    | (simp [Token.ty]; done)
+    | (rename_i h3; exfalso; simp at h3; rw [h3] at hm; simp at hm)
+
+/-- `chrs[a..b]` -/
+def seg (s : Text) (a b : Nat) : Text := (s.take b).drop a
+
+theorem slice_seg {s x : Text} {a b : Nat} (h : slice s a b = .ok x) : x = seg s a b := by
+  unfold slice at h; split at h
+  · cases h; rfl
+  · cases h
+
+theorem seg_self (s : Text) (a : Nat) : seg s a a = [] := by
+  unfold seg; simp [List.drop_eq_nil_iff, List.length_take]
+
+theorem seg_extend (s : Text) {a b b' : Nat} (h1 : a ≤ b) (h2 : b ≤ b') (h3 : b ≤ s.length) :
+    seg s a b' = seg s a b ++ seg s b b' := by
+  unfold seg
+  have e : s.take b' = s.take b ++ (s.take b').drop b := by
+    have := List.take_append_drop b (s.take b')
+    rw [List.take_take, Nat.min_eq_left h2] at this
+    exact this.symm
+  conv => lhs; rw [e]
+  rw [List.drop_append_of_le_length (by simp [List.length_take]; omega)]
+
+theorem seg_one (s : Text) (i : Nat) (ch : Char) (h : s[i]? = some ch) : seg s i (i + 1) = [ch] := by
+  unfold seg
+  have hi : i < s.length := by
+    rcases Nat.lt_or_ge i s.length with h' | h'
+    · exact h'
+    · have : s[i]? = none := by simp; omega
+      rw [this] at h; cases h
+  have hg : s[i] = ch := by
+    have := List.getElem?_eq_getElem hi
+    rw [this] at h; cases h; rfl
+  rw [List.take_succ_eq_append_getElem hi, List.drop_append_of_le_length (by simp [List.length_take]; omega)]
+  simp [List.drop_eq_nil_iff, List.length_take, hg]
+
+theorem seg_head (s : Text) (i b : Nat) (ch : Char) (h : s[i]? = some ch) (hb : i + 1 ≤ b) :
+    seg s i b = ch :: seg s (i + 1) b := by
+  have hi : i < s.length := by
+    rcases Nat.lt_or_ge i s.length with h' | h'
+    · exact h'
+    · have : s[i]? = none := by simp; omega
+      rw [this] at h; cases h
+  rw [seg_extend s (Nat.le_succ i) hb (by omega), seg_one s i ch h]; rfl
+
+theorem seg_mem_mono (s : Text) {a b b' : Nat} {c : Char} (h : b ≤ b') (hc : c ∈ seg s a b) : c ∈ seg s a b' := by
+  unfold seg at *
+  have hp : (s.take b) <+: (s.take b') := by
+    rw [← Nat.min_eq_left h, ← List.take_take]; exact List.take_prefix _ _
+  obtain ⟨t, ht⟩ := hp
+  rw [← ht]
+  rcases Nat.lt_or_ge (s.take b).length a with hl | hl
+  · rw [List.drop_eq_nil_of_le (Nat.le_of_lt hl)] at hc; cases hc
+  · rw [List.drop_append_of_le_length hl]; exact List.mem_append_left _ hc
+
+theorem seg_beyond (s : Text) (a b : Nat) (h : s.length ≤ b) : seg s a b = seg s a s.length := by
+  unfold seg; rw [List.take_of_length_le h, List.take_of_length_le (Nat.le_refl _)]
+
+/-- the tokens emitted so far: leaves; the first one and the one after every `(` is a subgoal or a `(` -/
+structure TK (ts : List Token) : Prop where
+  leaves : ∀ t ∈ ts, t.isLeaf ∧ t.ty ≠ .group
+  first : ∀ t, ts[0]? = some t → (t.ty = .lparen ∨ isSub t)
+  after : ∀ k t nx, ts[k]? = some t → ts[k + 1]? = some nx → t.ty = .lparen → (nx.ty = .lparen ∨ isSub nx)
+
+def lastLP (ts : List Token) : Prop := ∃ t, ts.getLast? = some t ∧ t.ty = .lparen
+
+theorem TK.snoc {ts : List Token} (h : TK ts) (a : Token) (hl : a.isLeaf ∧ a.ty ≠ .group)
+    (h0 : ts = [] → (a.ty = .lparen ∨ isSub a)) (h1 : lastLP ts → (a.ty = .lparen ∨ isSub a)) : TK (ts ++ [a]) := by
+  refine ⟨?_, ?_, ?_⟩
+  · intro t ht
+    rcases List.mem_append.mp ht with h' | h'
+    · exact h.leaves t h'
+    · simp at h'; subst h'; exact hl
+  · intro t ht
+    cases ts with
+    | nil => simp at ht; subst ht; exact h0 rfl
+    | cons b rest => simp at ht; subst ht; exact h.first _ (by simp)
+  · intro k t nx hk hk1 hlp
+    rcases Nat.lt_or_ge (k + 1) ts.length with hlt | hge
+    · rw [List.getElem?_append_left (by omega)] at hk
+      rw [List.getElem?_append_left hlt] at hk1
+      exact h.after k t nx hk hk1 hlp
+    · have hk1' : k + 1 = ts.length := by
+        rcases Nat.lt_or_ge ts.length (k + 1) with h2 | h2
+        · have : (ts ++ [a])[k + 1]? = none := by simp; omega
+          rw [this] at hk1; cases hk1
+        · omega
+      rw [List.getElem?_append_left (by omega)] at hk
+      have : nx = a := by
+        rw [hk1', List.getElem?_append_right (Nat.le_refl _)] at hk1
+        simpa using hk1.symm
+      subst this
+      apply h1
+      refine ⟨t, ?_, hlp⟩
+      rw [List.getLast?_eq_getElem?]
+      have : ts.length - 1 = k := by omega
+      rw [this]; exact hk
+
+theorem lastLP_snoc (ts : List Token) (a : Token) : lastLP (ts ++ [a]) ↔ a.ty = .lparen := by
+  unfold lastLP; simp
+
+/-- the condition on a piece of text that began at a fresh `start_index`: either it is white space so far and the
+    tokenizer is outside complex terms and lists (so the next separator or parenthesis will be acted on), or its
+    first character proper is not a separator or parenthesis -/
+def FreshCond (x : Text) (stack : List TokTy) (prev : Char) : Prop :=
+  match firstNonWs x with
+  | none => peek stack ≠ .complex ∧ peek stack ≠ .linkedList ∧ prev ≠ '\\' ∧ letterNumberHyphen prev = false
+  | some d => ¬ badFirst d
+
+/-- invariant of the tokenizer loop; `F` (ghost) = `start_index` was set after the last `)` of a group -/
+structure TInv (s : Text) (i : Nat) (st : TokSt) (F : Bool) : Prop where
+  le : st.start ≤ i
+  tk : TK st.tokens
+  lastlp : lastLP st.tokens → F = true ∧ TokTy.group ∈ st.stack
+  empty : st.tokens = [] → F = true ∧ st.start = 0
+  fresh : F = true → FreshCond (seg s st.start i) st.stack st.prev
+  junk : F = false → ')' ∈ seg s st.start i
+
+/-- a step that emits nothing -/
+theorem TInv.extend {s : Text} {i i' : Nat} {st st' : TokSt} {F : Bool} (h : TInv s i st F)
+    (hi : i ≤ i') (hlen : i ≤ s.length) (htok : st'.tokens = st.tokens) (hstart : st'.start = st.start)
+    (hstk : TokTy.group ∈ st.stack → TokTy.group ∈ st'.stack)
+    (hf : F = true → firstNonWs (seg s st.start i) = none →
+          (peek st.stack ≠ .complex ∧ peek st.stack ≠ .linkedList ∧ st.prev ≠ '\\' ∧ letterNumberHyphen st.prev = false) →
+          FreshCond (seg s i i') st'.stack st'.prev) : TInv s i' st' F := by
+  refine ⟨by rw [hstart]; exact Nat.le_trans h.le hi, by rw [htok]; exact h.tk, ?_, ?_, ?_, ?_⟩
+  · intro hl; rw [htok] at hl; exact ⟨(h.lastlp hl).1, hstk (h.lastlp hl).2⟩
+  · intro he; rw [htok] at he; rw [hstart]; exact h.empty he
+  · intro hF
+    have old := h.fresh hF
+    rw [hstart, seg_extend s h.le hi hlen]
+    unfold FreshCond at old ⊢
+    rw [firstNonWs_append]
+    cases hx : firstNonWs (seg s st.start i) with
+    | some d => rw [hx] at old; exact old
+    | none => rw [hx] at old; exact hf hF hx old
+  · intro hF; rw [hstart]; exact seg_mem_mono s hi (h.junk hF)
+
+/-- the token made of `chrs[start_index..i]` -/
+theorem TInv.emit {s : Text} {i : Nat} {st : TokSt} {F : Bool} (h : TInv s i st F) :
+    let a := makeLeafToken (seg s st.start i)
+    (a.isLeaf ∧ a.ty ≠ .group) ∧ a.ty ≠ .lparen ∧ (F = true → isSub a) := by
+  intro a
+  have hsub : F = true → isSub a := by
+    intro hF
+    apply makeLeafToken_sub
+    intro d hd
+    have := h.fresh hF
+    unfold FreshCond at this
+    rw [hd] at this; exact this
+  refine ⟨makeLeafToken_leaf _, ?_, hsub⟩
+  cases hF : F with
+  | true => rw [isSub_ty (hsub hF)]; simp
+  | false => exact makeLeafToken_not_lparen _ (h.junk hF)
+
+theorem TInv.tk_emit {s : Text} {i : Nat} {st : TokSt} {F : Bool} (h : TInv s i st F) :
+    TK (st.tokens ++ [makeLeafToken (seg s st.start i)]) := by
+  obtain ⟨h1, _, h3⟩ := h.emit
+  exact h.tk.snoc _ h1 (fun he => Or.inr (h3 (h.empty he).1)) (fun hl => Or.inr (h3 (h.lastlp hl).1))
+
+theorem leaf_lits : makeLeafToken ['('] = .leaf .lparen ['('] ∧ makeLeafToken [')'] = .leaf .rparen [')'] ∧
+    makeLeafToken [','] = .leaf .comma [','] ∧ makeLeafToken [';'] = .leaf .semicolon [';'] := by
+  refine ⟨?_, ?_, ?_, ?_⟩ <;> rfl
+
+theorem mem_drop_one {stk : List TokTy} (h : TokTy.group ∈ stk) (hp : peek stk ≠ .group) : TokTy.group ∈ stk.drop 1 := by
+  cases stk with
+  | nil => cases h
+  | cons a rest =>
+    simp [peek] at hp
+    simp at h ⊢
+    rcases h with h | h
+    · exact absurd h.symm hp
+    · exact h
+
+theorem TK.done {ts : List Token} (h : TK ts) (hne : ts ≠ []) (hl : ¬ lastLP ts) : TokOK ts := by
+  refine ⟨h.leaves, ?_, ?_⟩
+  · cases ts with
+    | nil => exact absurd rfl hne
+    | cons a rest => exact ⟨a, by simp, h.first a (by simp)⟩
+  · intro k t hk hlp
+    rcases Nat.lt_or_ge (k + 1) ts.length with hlt | hge
+    · have : ts[k + 1]? = some ts[k + 1] := List.getElem?_eq_getElem hlt
+      exact ⟨_, this, h.after k t _ hk this hlp⟩
+    · exfalso
+      apply hl
+      refine ⟨t, ?_, hlp⟩
+      have hk' : k < ts.length := by
+        rcases Nat.lt_or_ge k ts.length with h' | h'
+        · exact h'
+        · have : ts[k]? = none := by simp; omega
+          rw [this] at hk; cases hk
+      rw [List.getLast?_eq_getElem?]
+      have : ts.length - 1 = k := by omega
+      rw [this]; exact hk
+
+theorem peek_cons (a : TokTy) (l : List TokTy) : peek (a :: l) = a := rfl
+
+/-- the tokenizer's output satisfies `TokOK` -/
+theorem tokLoop_TokOK (s : Text) (hs : s ≠ []) : ∀ (fuel i : Nat) (st : TokSt) (F : Bool) (ts : List Token),
+    TInv s i st F → tokLoop s fuel i st = .ok ts → TokOK ts := by
+  intro fuel
+  induction fuel with
+  | zero => intro i st F ts _ h; simp [tokLoop] at h
+  | succ fuel ih =>
+    intro i st F ts hinv h
+    simp only [tokLoop] at h
+    split at h
+    · -- after the loop
+      rename_i hnone
+      have hi : s.length ≤ i := by
+        rcases Nat.lt_or_ge i s.length with h' | h'
+        · have : s[i]? = some s[i] := List.getElem?_eq_getElem h'
+          rw [this] at hnone; cases hnone
+        · exact h'
+      split at h
+      · cases h
+      · rename_i hstk
+        have hempty : st.stack = [] := by simpa using hstk
+        have hnl : ¬ lastLP st.tokens := fun hl => by
+          have := (hinv.lastlp hl).2; rw [hempty] at this; cases this
+        split at h
+        · obtain ⟨sub, hsub, h⟩ := Res.bind_eq_ok.mp h
+          cases h
+          have e : sub = seg s st.start i := by rw [slice_seg hsub, seg_beyond s _ i hi]
+          rw [e]
+          refine hinv.tk_emit.done (by simp) ?_
+          rw [lastLP_snoc]; exact hinv.emit.2.1
+        · rename_i hpos
+          cases h
+          refine hinv.tk.done ?_ hnl
+          intro he
+          have := (hinv.empty he).2
+          have hl : 0 < s.length := List.length_pos_iff.mpr hs
+          omega
+    · rename_i ch hch
+      have hi : i < s.length := by
+        rcases Nat.lt_or_ge i s.length with h' | h'
+        · exact h'
+        · have : s[i]? = none := by simp; omega
+          rw [this] at hch; cases hch
+      have hone := seg_one s i ch hch
+      -- a step that emits nothing and leaves the stack alone or pushes on it
+      have plain : ∀ (i' : Nat) (st' : TokSt), tokLoop s fuel i' st' = .ok ts → i + 1 ≤ i' → st'.tokens = st.tokens → st'.start = st.start →
+          (TokTy.group ∈ st.stack → TokTy.group ∈ st'.stack) →
+          (F = true → firstNonWs (seg s st.start i) = none →
+            (peek st.stack ≠ .complex ∧ peek st.stack ≠ .linkedList ∧ st.prev ≠ '\\' ∧ letterNumberHyphen st.prev = false) →
+            (isWs ch = false ∧ ¬ badFirst ch) ∨
+            (isWs ch = true ∧ i' = i + 1 ∧ peek st'.stack ≠ .complex ∧ peek st'.stack ≠ .linkedList ∧ st'.prev ≠ '\\' ∧ letterNumberHyphen st'.prev = false)) →
+          TokOK ts := by
+        intro i' st' hrun hi' htok hstart hstk hf
+        refine ih i' st' F ts (hinv.extend (by omega) (by omega) htok hstart hstk ?_) hrun
+        intro hF hx hold
+        unfold FreshCond
+        rw [seg_head s i i' ch hch hi']
+        rcases hf hF hx hold with ⟨hw, hb⟩ | ⟨hw, rfl, hrest⟩
+        · rw [firstNonWs_cons_nonws _ _ hw]; exact hb
+        · rw [seg_self]
+          rw [firstNonWs_single, if_pos hw]
+          exact hrest
+      -- a step that emits the current piece and a separator or parenthesis, and starts a new piece
+      split at h
+      · -- a quotation mark: skip to its partner
+        rename_i hq
+        have hq' : ch = '"' := by
+          unfold noEsc at hq; simp at hq; exact hq.2
+        have hfq : isWs ch = false ∧ ¬ badFirst ch := ⟨by rw [hq']; decide, by rw [hq']; unfold badFirst; decide⟩
+        split at h
+        · rename_i j hj
+          have := findQuote_ge _ _ _ _ hj
+          exact plain (j + 1) _ h (by omega) rfl rfl (fun x => x) (fun _ _ _ => Or.inl hfq)
+        · exact plain (i + 1) _ h (Nat.le_refl _) rfl rfl (fun x => x) (fun _ _ _ => Or.inl hfq)
+      split at h
+      · -- `(`
+        rename_i hnq hlp
+        have hch' : ch = '(' := by unfold noEsc at hlp; simp at hlp; exact hlp.2
+        split at h
+        · -- the parenthesis of a complex term
+          rename_i hletter
+          refine plain (i + 1) _ h (Nat.le_refl _) rfl rfl (fun x => List.mem_cons_of_mem _ x) ?_
+          intro _ _ hold
+          exact absurd hletter (by rw [hold.2.2.2]; simp)
+        · -- a group opens: `(` is a token, a new piece starts
+          rename_i hletter
+          refine ih (i + 1) _ true ts ?_ h
+          have htk : TK (st.tokens ++ [makeLeafToken ['(']]) := by
+            rw [leaf_lits.1]
+            exact hinv.tk.snoc _ ⟨trivial, by simp [Token.ty]⟩ (fun _ => Or.inl rfl) (fun _ => Or.inl rfl)
+          refine ⟨Nat.le_refl _, htk, (fun _ => ⟨rfl, by simp⟩), (fun he => by simp at he), ?_, (fun hF => by cases hF)⟩
+          intro _
+          unfold FreshCond
+          rw [seg_self]
+          simp only [firstNonWs, List.dropWhile, List.head?]
+          rw [hch']
+          exact ⟨by simp [peek_cons], by simp [peek_cons], by decide, by decide⟩
+      split at h
+      · -- `)`
+        rename_i hnq hnlp hrp
+        have hch' : ch = ')' := by unfold noEsc at hrp; simp at hrp; exact hrp.2
+        split at h
+        · cases h
+        · rename_i hne
+          split at h
+          · -- the group closes: the current piece and `)` are tokens; what follows is left over
+            rename_i hgrp
+            obtain ⟨sub, hsub, h⟩ := Res.bind_eq_ok.mp h
+            have e : sub = seg s st.start i := slice_seg hsub
+            refine ih (i + 1) _ false ts ?_ h
+            have htk1 := hinv.tk_emit
+            have htk : TK (st.tokens ++ [makeLeafToken sub, makeLeafToken [')']]) := by
+              rw [e, leaf_lits.2.1]
+              have := htk1.snoc (.leaf .rparen [')']) ⟨trivial, by simp [Token.ty]⟩ (fun he => by simp at he)
+                (fun hl => by rw [lastLP_snoc] at hl; exact absurd hl hinv.emit.2.1)
+              simpa using this
+            refine ⟨(by simp; exact Nat.le_trans hinv.le (Nat.le_succ _)), htk, ?_, (fun he => by simp at he), (fun hF => by cases hF), ?_⟩
+            · intro hl
+              exfalso
+              have : lastLP ((st.tokens ++ [makeLeafToken sub]) ++ [makeLeafToken [')']]) := by simpa using hl
+              rw [lastLP_snoc, leaf_lits.2.1] at this
+              simp [Token.ty] at this
+            · intro _
+              simp only
+              rw [seg_extend s hinv.le (Nat.le_succ i) (by omega), hone, hch']
+              simp
+          · split at h
+            · cases h
+            · -- the parenthesis of a complex term closes
+              rename_i hngrp hcx
+              have hcx' : peek st.stack = .complex := by simpa using hcx
+              refine plain (i + 1) _ h (Nat.le_refl _) rfl rfl (fun x => mem_drop_one x (by rw [hcx']; simp)) ?_
+              intro _ _ hold
+              exact absurd hcx' hold.1
+      split at h
+      · -- `[`
+        rename_i hnq hnlp hnrp hlb
+        have hch' : ch = '[' := by unfold noEsc at hlb; simp at hlb; exact hlb.2
+        refine plain (i + 1) _ h (Nat.le_refl _) rfl rfl (fun x => List.mem_cons_of_mem _ x) ?_
+        intro _ _ _
+        exact Or.inl ⟨by rw [hch']; decide, by rw [hch']; unfold badFirst; decide⟩
+      split at h
+      · -- `]`
+        rename_i hnq hnlp hnrp hnlb hrb
+        split at h
+        · cases h
+        · split at h
+          · cases h
+          · rename_i hne hll
+            have hll' : peek st.stack = .linkedList := by simpa using hll
+            refine plain (i + 1) _ h (Nat.le_refl _) rfl rfl (fun x => mem_drop_one x (by rw [hll']; simp)) ?_
+            intro _ _ hold
+            exact absurd hll' hold.2.1
+      -- any other character
+      rename_i hnq hnlp hnrp hnlb hnrb
+      -- with the previous character not a backslash, `ch` is none of the characters handled above
+      have notspecial : st.prev ≠ '\\' → ch ≠ '(' ∧ ch ≠ ')' := by
+        intro hp
+        unfold noEsc at hnlp hnrp
+        simp [hp] at hnlp hnrp
+        exact ⟨hnlp, hnrp⟩
+      split at h
+      · rename_i htop
+        split at h
+        · cases h
+        · split at h
+          · -- `,`: the current piece and `,` are tokens, a new piece starts
+            rename_i hninv hcomma
+            obtain ⟨sub, hsub, h⟩ := Res.bind_eq_ok.mp h
+            have e : sub = seg s st.start i := slice_seg hsub
+            refine ih (i + 1) _ true ts ?_ h
+            have htk : TK (st.tokens ++ [makeLeafToken sub, makeLeafToken [',']]) := by
+              rw [e, leaf_lits.2.2.1]
+              have := hinv.tk_emit.snoc (.leaf .comma [',']) ⟨trivial, by simp [Token.ty]⟩ (fun he => by simp at he)
+                (fun hl => by rw [lastLP_snoc] at hl; exact absurd hl hinv.emit.2.1)
+              simpa using this
+            have hch' : ch = ',' := by unfold noEsc at hcomma; simp at hcomma; exact hcomma.2
+            refine ⟨Nat.le_refl _, htk, ?_, (fun he => by simp at he), ?_, (fun hF => by cases hF)⟩
+            · intro hl
+              exfalso
+              have : lastLP ((st.tokens ++ [makeLeafToken sub]) ++ [makeLeafToken [',']]) := by simpa using hl
+              rw [lastLP_snoc, leaf_lits.2.2.1] at this
+              simp [Token.ty] at this
+            · intro _
+              unfold FreshCond
+              rw [seg_self]
+              simp only [firstNonWs, List.dropWhile, List.head?]
+              simp at htop
+              rw [hch']
+              exact ⟨htop.1, htop.2, by decide, by decide⟩
+          · split at h
+            · -- `;`
+              rename_i hninv hncomma hsemi
+              obtain ⟨sub, hsub, h⟩ := Res.bind_eq_ok.mp h
+              have e : sub = seg s st.start i := slice_seg hsub
+              refine ih (i + 1) _ true ts ?_ h
+              have htk : TK (st.tokens ++ [makeLeafToken sub, makeLeafToken [';']]) := by
+                rw [e, leaf_lits.2.2.2]
+                have := hinv.tk_emit.snoc (.leaf .semicolon [';']) ⟨trivial, by simp [Token.ty]⟩ (fun he => by simp at he)
+                  (fun hl => by rw [lastLP_snoc] at hl; exact absurd hl hinv.emit.2.1)
+                simpa using this
+              have hch' : ch = ';' := by unfold noEsc at hsemi; simp at hsemi; exact hsemi.2
+              refine ⟨Nat.le_refl _, htk, ?_, (fun he => by simp at he), ?_, (fun hF => by cases hF)⟩
+              · intro hl
+                exfalso
+                have : lastLP ((st.tokens ++ [makeLeafToken sub]) ++ [makeLeafToken [';']]) := by simpa using hl
+                rw [lastLP_snoc, leaf_lits.2.2.2] at this
+                simp [Token.ty] at this
+              · intro _
+                unfold FreshCond
+                rw [seg_self]
+                simp only [firstNonWs, List.dropWhile, List.head?]
+                simp at htop
+                rw [hch']
+                exact ⟨htop.1, htop.2, by decide, by decide⟩
+            · -- an ordinary character outside complex terms and lists
+              rename_i hninv hncomma hnsemi
+              refine plain (i + 1) _ h (Nat.le_refl _) rfl rfl (fun x => x) ?_
+              intro _ _ hold
+              have hp := hold.2.2.1
+              obtain ⟨n1, n2⟩ := notspecial hp
+              have n3 : ch ≠ ',' := by unfold noEsc at hncomma; simp [hp] at hncomma; exact hncomma
+              have n4 : ch ≠ ';' := by unfold noEsc at hnsemi; simp [hp] at hnsemi; exact hnsemi
+              cases hw : isWs ch with
+              | false =>
+                left
+                refine ⟨rfl, ?_⟩
+                unfold badFirst
+                rintro (e | e | e | e)
+                · exact n3 e
+                · exact n4 e
+                · exact n1 e
+                · exact n2 e
+              | true =>
+                right
+                have := ws_not_special ch hw
+                exact ⟨rfl, rfl, hold.1, hold.2.1, this.1, ws_not_letter ch hw⟩
+      · -- an ordinary character inside a complex term or a list
+        rename_i htop
+        refine plain (i + 1) _ h (Nat.le_refl _) rfl rfl (fun x => x) ?_
+        intro _ _ hold
+        exfalso
+        simp at htop
+        by_cases hc : peek st.stack = .complex
+        · exact hold.1 hc
+        · exact hold.2.1 (htop hc)
+
+theorem tokenize_TokOK (s : Text) (ts : List Token) (h : tokenize s = .ok ts) : TokOK ts := by
+  unfold tokenize at h
+  simp only at h
+  split at h
+  · cases h
+  · rename_i hne
+    refine tokLoop_TokOK (trim s) (by intro e; rw [e] at hne; simp at hne) _ 0 {} true ts ?_ h
+    refine ⟨Nat.le_refl _, ⟨by simp, by simp, by simp⟩, ?_, (fun _ => ⟨rfl, rfl⟩), ?_, (fun hF => by cases hF)⟩
+    · rintro ⟨t, ht, _⟩; simp at ht
+    · intro _
+      unfold FreshCond
+      rw [seg_self]
+      simp only [firstNonWs, List.dropWhile, List.head?]
+      exact ⟨by simp [peek], by simp [peek], by decide, by decide⟩
+
+/-- the grouping stage of `generate_goal` never panics -/
+theorem generateGoal_ne_panic (po : POps) (hsub : ∀ f s, parseSubgoal po f s ≠ .panic) (f : Nat) (s : Text) :
+    generateGoal po f s ≠ .panic := by
+  unfold generateGoal
+  refine Res.bind_ne_panic (tokenize_ne_panic' s) (fun ts hts => ?_)
+  have hok := tokenize_TokOK s ts hts
+  obtain ⟨g1, g2⟩ := groupTokens_S0 ts hok (ts.length + 2) 0 [] (by simp) (by simp) hok.first
+  refine Res.bind_ne_panic g1 (fun t0 ht0 => ?_)
+  have hS0 := g2 t0 ht0
+  obtain ⟨a1, a2⟩ := (groupAnd_S0 f).1 t0.1 hS0
+  refine Res.bind_ne_panic a1 (fun t1 ht1 => ?_)
+  cases f with
+  | zero => simp [groupAnd] at ht1
+  | succ f' =>
+    obtain ⟨o1, o2⟩ := groupOr_S1 f' t1 (a2 t1 ht1)
+    refine Res.bind_ne_panic o1 (fun t2 ht2 => ?_)
+    exact (tree_ne_panic po hsub (f' + 1)).1 t2 (o2 t2 ht2).np
+
+theorem indexOfNeck_bound : ∀ (rest : Text) (i : Nat) (pc : Bool) (k : Nat),
+    indexOfNeck rest i pc = some k → (pc = true → 1 ≤ i) → k + 2 ≤ i + rest.length := by
+  intro rest
+  induction rest with
+  | nil => intro i pc k h; simp [indexOfNeck] at h
+  | cons ch rest ih =>
+    intro i pc k h hpc
+    simp only [indexOfNeck] at h
+    split at h
+    · rename_i hc
+      simp at hc
+      cases h
+      have := hpc hc.2
+      simp only [List.length_cons]; omega
+    · have := ih (i + 1) _ k h (fun _ => by omega)
+      simp only [List.length_cons]; omega
+
+/-- `parse_rule` never panics -/
+theorem parseRule_ne_panic (po : POps) (hsub : ∀ f s, parseSubgoal po f s ≠ .panic)
+    (hcx : ∀ f s, parseComplex po f s ≠ .panic) (f : Nat) (s : Text) : parseRule po f s ≠ .panic := by
+  unfold parseRule
+  simp only
+  split
+  · simp
+  · generalize (if (trim s).getLast? == some '.' then (trim s).dropLast else trim s) = chrs
+    split
+    · rename_i index hidx
+      have hb := indexOfNeck_bound chrs 0 false index hidx (by simp)
+      refine Res.bind_ne_panic (slice_ne_panic (by omega) (by omega)) (fun hd _ => ?_)
+      refine Res.bind_ne_panic (slice_ne_panic (by omega) (Nat.le_refl _)) (fun bd _ => ?_)
+      split
+      · simp
+      · refine Res.bind_ne_panic (hsub _ _) (fun sg _ => ?_)
+        split
+        · exact Res.bind_ne_panic (generateGoal_ne_panic po hsub _ _) (fun _ _ => by simp)
+        · simp
+    · exact Res.bind_ne_panic (hcx _ _) (fun _ _ => by simp)
+
 end Suiron.Parse
